@@ -236,7 +236,114 @@ def rule_char_compositions(ctx):
                               % (nm, txt, sorted(map(str, got)), w))
 
 
+_CHAR_EVAL = {}
+
+
+def char_routines_by_evaluation(ctx):
+    """Finite-domain evaluation of the character routines (their decision tables, the constant tables as evaluated by
+    the compiler): `<char as Char>::normalize`, `::char_class_and_normalize`, `::char_class`, `to_lower_case`,
+    `is_upper_case` on a complete set of representatives -- every ASCII character, every key and value of the fold
+    table, every character of the blocks the Latin normalizer serves and its image, and a few characters outside all
+    tables -- under the four (ignore_case, normalize) configurations.  Whatever the routines look like (helpers, match /
+    if chains, shared lookups), this decides what they compute.  Returns None when a body cannot be evaluated."""
+    key = id(ctx.facts)
+    if key in _CHAR_EVAL:
+        return _CHAR_EVAL[key]
+    from absint import Evaluator, Unknown
+    facts = ctx.facts
+    out = None
+    try:
+        E = Evaluator(facts, M)
+        fold_k = facts.const(M, FOLD_TABLE)
+        FOLD = {a: b for a, b in fold_k["value"]} if fold_k is not None else {}
+        nf = facts.body(M, "chars::normalize::normalize")
+        reps = set(range(0, 128)) | set(FOLD) | set(FOLD.values()) | {0xB5, 0xD7, 0xF7, 0x4E00, 0x4E62, 0x1F600, 0xD7FF, 0xE000, 0x10FFFF, 0x0600, 0x3042}
+        for k in facts.crate(M)["consts"]:
+            if k["path"].startswith("chars::normalize::") and isinstance(k.get("value"), list) and k["value"] and isinstance(k["value"][0], int):
+                reps |= set(k["value"])
+        # the blocks the normalizer serves: every scalar whose image differs is found by probing the ranges around the
+        # table images' preimages; the table lengths bound the blocks
+        fn_n = get_fn(facts, M, "<char as chars::Char>::normalize")
+        fn_c = get_fn(facts, M, "<char as chars::Char>::char_class_and_normalize")
+        fn_k = get_fn(facts, M, "<char as chars::Char>::char_class")
+        fn_lo = facts.body(M, "chars::to_lower_case")
+        fn_up = facts.body(M, "chars::is_upper_case")
+        NORM = {}
+        if nf is not None:
+            nfn = fn_of(nf)
+            for lo_, hi_ in ((0x80, 0x24F + 1), (0x1E00, 0x1EFF + 1), (0x2070, 0x209F + 1), (0x2000, 0x206F + 1)):
+                for c in range(lo_, hi_):
+                    reps.add(c)
+            for c in sorted(reps):
+                NORM[c] = E.call(nfn, [c])
+            reps |= set(NORM.values())
+            for c in sorted(reps):
+                if c not in NORM:
+                    NORM[c] = E.call(nfn, [c])
+        reps = sorted(c for c in reps if 0 <= c <= 0x10FFFF and not 0xD800 <= c <= 0xDFFF)
+        res = {"reps": len(reps), "siblings": [], "composition": [], "class": [], "lower": [], "upper": [], "evals": 0}
+        base_cfg = {"delimiter_chars": ("bytes", b"/,:;|"), "prefer_prefix": 0, "bonus_boundary_white": 8, "bonus_boundary_delimiter": 9,
+                    "initial_char_class": ("enum", "CharClass", "Whitespace")}
+        for ic in (0, 1):
+            for nz in (0, 1):
+                cfg = ("struct", "Config", dict(base_cfg, ignore_case=ic, normalize=nz))
+                for c in reps:
+                    a = E.call(fn_n, [c, cfg])
+                    b = E.call(fn_c, [c, cfg])
+                    k_ = E.call(fn_k, [c, cfg])
+                    res["evals"] += 3
+                    b0, b1 = b[1][0], b[1][1]
+                    n_ = NORM.get(c, c) if (nz and nf is not None) else c
+                    if ic:
+                        want = (n_ + 32) if 65 <= n_ <= 90 else FOLD.get(n_, n_)
+                    else:
+                        want = n_
+                    if a != b0 and len(res["siblings"]) < 5:
+                        res["siblings"].append((c, ic, nz, a, b0))
+                    if (a != want or b0 != want) and len(res["composition"]) < 5:
+                        res["composition"].append((c, ic, nz, a, b0, want))
+                    if b1 != k_ and len(res["class"]) < 5:
+                        res["class"].append((c, ic, nz, b1, k_))
+        if fn_lo is not None and fn_up is not None:
+            flo, fup = fn_of(fn_lo), fn_of(fn_up)
+            for c in reps:
+                lo_v = E.call(flo, [c])
+                up_v = E.call(fup, [c])
+                res["evals"] += 2
+                if lo_v != FOLD.get(c, c) and len(res["lower"]) < 5:
+                    res["lower"].append((c, lo_v, FOLD.get(c, c)))
+                if up_v != int(c in FOLD) and len(res["upper"]) < 5:
+                    res["upper"].append((c, up_v, int(c in FOLD)))
+        out = res
+    except (Unknown, Inconclusive, RecursionError, KeyError, TypeError, IndexError):
+        out = None
+    _CHAR_EVAL[key] = out
+    return out
+
+
 def rule_norm_siblings(ctx):
+    ev = char_routines_by_evaluation(ctx)
+    if ev is not None:
+        fnb = get_fn(ctx.facts, M, "<char as chars::Char>::char_class_and_normalize")
+        if ev["siblings"]:
+            c, ic, nz, a, b0 = ev["siblings"][0]
+            ctx.violation("<char as chars::Char>|siblings|eval", site(fnb, 0),
+                          "char::normalize and char::char_class_and_normalize disagree: for U+%04X with ignore_case=%s normalize=%s the first gives U+%04X, the second U+%04X "
+                          "(the window is chosen with one and re-walked / scored with the other)" % (c, bool(ic), bool(nz), a, b0))
+        elif ev["composition"]:
+            c, ic, nz, a, b0, want = ev["composition"][0]
+            ctx.violation("<char as chars::Char>|composition|eval", site(fnb, 0),
+                          "for U+%04X with ignore_case=%s normalize=%s the normalizers return U+%04X / U+%04X, the composition fold(normalize(c)) of the tables is U+%04X"
+                          % (c, bool(ic), bool(nz), a, b0, want))
+        else:
+            ctx.ok(site(fnb, 0), "char::normalize == char_class_and_normalize.0 == fold?(normalize?(c)) on %d representative characters x 4 configurations (%d evaluations of the "
+                   "extracted decision tables against the compiler-evaluated constant tables)" % (ev["reps"], ev["evals"]))
+        rule_ascii_fold_consts(ctx)
+        return
+    _rule_norm_siblings_structural(ctx)
+
+
+def _rule_norm_siblings_structural(ctx):
     facts = ctx.facts
     features_fold = facts.const(M, FOLD_TABLE) is not None
     # ---- char
